@@ -29,7 +29,8 @@ THEOREMS = ["Kdf.Props.C15." + t for t in (
     "chunk_roundtrip", "diskdumpReadPage_balanced", "cacheGetPage_balanced", "diskdumpGetPage_balanced", "readLocked_balanced",
     "addrxlatGetPage_balanced", "addrxlatPage_roundtrip", "session_balanced",
     "fcacheGetFb_balanced", "fcacheGetFb_roundtrip", "xenMapScan_balanced", "getCacheBuf_balanced", "cleanupCache_balanced",
-    "ctxAddCb_balanced", "ctxDelCb_balanced", "axSession_balanced", "axSession_delcb_last", "xenMapScan_balanced_fresh")] + [
+    "ctxAddCb_balanced", "ctxDelCb_balanced", "axSession_balanced", "axSession_delcb_last", "xenMapScan_balanced_fresh",
+    "verifyMagic_balanced", "magicLoop_balanced")] + [
     # libaddrxlat's read cache under a RE-ENTRANT get-page callback (model Kdf.Model.RCache, shared with C09)
     "Kdf.Props.C09.read_gives_back", "Kdf.Props.C09.filling_slot_never_chosen", "Kdf.Props.C09.filling_slot_untouched",
     "Kdf.Props.C09.filling_marks_restored"]
@@ -574,6 +575,62 @@ def directed_formats(R, files):
     return out
 
 
+def truncated_files(R):
+    """Dump files that END inside or right behind the structures a probe scans: every format's writer reports the offsets
+    where its structures begin and end (`bounds`); a file is cut at such an offset, a few bytes before or after it, and at
+    the host-page boundaries around it (the units of the file cache).  Returns [(object with .path/.ps/.maxpfn, kind, cut)]."""
+    rng = R.rng
+    quick = R.tier == "quick"
+    bases = []
+    def add(nm, info):
+        bases.append((nm, R.path("c15-tr-" + nm), info))
+    for kind in ("single", "diskset", "media"):
+        for bs in ((4096,) if quick else (4096, 8192, 512)):
+            nm = "sadump-%s-%d" % (kind, bs)
+            add(nm, dumpgen.c03_write_sadump(R.path("c15-tr-" + nm), [1, 2, 5], kind=kind, max_mapnr=16, ram=[0, 1, 2, 3, 5, 6], block_size=bs))
+    add("lkcd", dumpgen.c03_write_lkcd(R.path("c15-tr-lkcd"), [0, 1, 2, 5, 6], compress=rng.choice([0, 1, 2])))
+    add("s390", dumpgen.c03_write_s390(R.path("c15-tr-s390")))
+    out = []
+    for nm, path, info in bases:
+        img = open(path, "rb").read()
+        bounds = [b for b in (info or {}).get("bounds", []) if 0 < b <= len(img)] if isinstance(info, dict) else []
+        cuts = set()
+        for b in bounds:
+            cuts.update((b, b - 1, b - 4, b + 1, b + 4, b + 8))
+            cuts.update((b // 4096 * 4096, (b + 4095) // 4096 * 4096))
+        cuts.update(range(4096, min(len(img), 10 * 4096) + 1, 4096))
+        cuts = sorted(c for c in cuts if 0 < c < len(img))
+        # every run: the cuts on host-page boundaries (where the next cache entry lies wholly behind the end of the file)
+        aligned = [c for c in cuts if c % 4096 == 0]
+        rest = [c for c in cuts if c % 4096]
+        if quick:
+            aligned = aligned[:6] if nm.startswith("sadump") else rng.sample(aligned, min(len(aligned), 2))
+            rest = rng.sample(rest, min(len(rest), 4))
+        for c in aligned + rest:
+            class F: pass
+            f = F(); f.path = "%s.cut%d" % (path, c); f.ps = 4096; f.maxpfn = 16
+            open(f.path, "wb").write(img[:c])
+            out.append((f, nm, c))
+    return out
+
+
+def directed_truncated(R, cutfiles):
+    """probe / open of the truncated files under the read(2) path and the mmap path; whatever the outcome, every cache entry
+    obtained on the way is given back exactly once (reference sums, ledger over the intercepted cache calls, leak checker)"""
+    out = []
+    for f, nm, c in cutfiles:
+        for pol in ((0, 2) if (R.tier != "quick" or c % 4096 == 0) else (R.rng.choice([0, 2]),)):
+            S = Scn("api", f)
+            S.trunc = (nm, c, pol)
+            S.add("new 0"); S.add("setnum 0 file.mmap_policy %d" % pol)
+            S.add("open 0 0 1 %s" % f.path)
+            S.add("read 0 1 0 8"); S.add("get 0 file.pagemap 1"); S.add("fset 1 0"); S.add("read 0 1 %d 16" % (5 * f.ps))
+            S.add("open 0 1 1 %s" % f.path)          # probing the same file again on the same context
+            S.add("free 0"); S.add("drop 1"); S.add("closefds 0"); S.add("closefds 1")
+            out.append(S)
+    return out
+
+
 def known_scenarios(R, D):
     out = []
     S = Scn("known", D); S.known_key = "reopen-open-context"
@@ -989,6 +1046,8 @@ def run(R):
     apis = [api_scenario(R, dumps + flat, elfs, rng.choice([15, 30, 60])) for _ in range(napi)]
     consume(run_scenarios(R, exe, apis), with_model=False)
     consume(run_scenarios(R, exe, directed_scenarios(R, dumps) + directed_xen_cb(R, dumps, xcs) + directed_formats(R, elfs + dumps[:1] + flat[:1])), with_model=False)
+    cutfiles = truncated_files(R)
+    consume(run_scenarios(R, exe, directed_truncated(R, cutfiles)), with_model=False)
     consume(run_scenarios(R, exe, known_scenarios(R, dumps[0])), with_model=False)
 
     # ---- model: traces of the forced paths, ledger over every intercepted trace
@@ -1067,8 +1126,14 @@ def run(R):
                     "read cache under a RE-ENTRANT get-page callback (the `reent` blocks of the C09 stream through harness/s_sys.c: self-hosted "
                     "frame-table entries, chains, mutual pairs, cold and warm cache, direct reads and whole conversions): deliveries and put_page "
                     "calls of the callback are counted per context, nothing may be outstanding once the context is destroyed (model side: "
-                    "Kdf.Model.RCache with read_gives_back; the line-by-line correspondence of these blocks is C09's); non-trivial = distinct (call, event-kind set, status) classes "
+                    "Kdf.Model.RCache with read_gives_back; the line-by-line correspondence of these blocks is C09's); (f) files that END inside or right behind the structures a probe scans: SADUMP "
+                    "(single partition, disk set, media backup), LKCD and s390 files cut at every structure boundary their writer reports, a few bytes "
+                    "around it and at the host-page boundaries around it (so that the next file-cache entry lies wholly behind the end of the file, "
+                    "e.g. an SADUMP header block whose magic-number sequence runs up to the cut), opened under the read(2) and the mmap policy, probed "
+                    "a second time on the same context, then freed -- reference sums, ledger and leak checker as everywhere; "
+                    "non-trivial = distinct (call, event-kind set, status) classes "
                     "of the compared traces",
+               truncated_files=len(cutfiles),
                reentrant_read_cache=reent_stats,
                traces_validated_against_impl=len(impl_t), correspondence_first_diff=mism, ledger_checked_traces=len(check_in),
                fault_reruns=nfault, api_walks=napi, environment_answers=orckinds, decodability_corrected_by_discovery=dec_disagree, case_kinds=dict(sorted(kinds.items(), key=lambda kv: -kv[1])[:60]),
@@ -1082,4 +1147,7 @@ def run(R):
                           "xenMapScan (the table scan of make_xen_pfn_map_*) is a theorem about the model only: its loop is tied to the "
                           "code through the fcache_get_fb/fcache_put correspondence and the observed invariants on Xen cores, not by a "
                           "trace comparison of its own; .xen_pfn tables that straddle need misaligned loads (C03 finding) and are not generated",
-                          "kdump_free: only the give-back of the cached pages is compared with the model (ctxDelCb), not the context's own blocks"]
+                          "kdump_free: only the give-back of the cached pages is compared with the model (ctxDelCb), not the context's own blocks",
+                          "verifyMagic / magicLoop (verify_magic_number of sadump.c) are theorems about the model only: the function is tied to the "
+                          "code through the fcache_get correspondence, the ledger over the intercepted cache calls of every open of a truncated "
+                          "SADUMP file and the reference sums, not by a trace comparison of its own (an open's trace also holds the other probes)"]
